@@ -16,7 +16,7 @@ def queries(tier, kfs):
         structs += [(1, 3, 2, 1, 1, 1, (2,)), (4, 4, 2, 1, 1, 1, (1,)), (2, 4, 2, 1, 0, 1, (3,)), (3, 4, 2, 0, 0, 1, (3,)), (1, 3, 2, 1, 1, 2, (1, 2)), (5, 5, 2, 0, 0, 1, (1, 2))]
     for (sid, n, d, single, kscalar, rounds, nodes) in structs:
         for node in nodes:
-            for mexp in (('1.0', '0.5') if tier != 'quick' else ('1.0',)):
+            for mexp in (('1.0', '0.5') if (tier != 'quick' and rounds == 1 and sid != 5) else ('1.0',)):   # the call-sequence pow stub pairs calls of ONE step
                 qs.append(Query('erode_linear.struct%d.node%d.m%s.r%d' % (sid, node, mexp, rounds), 'spl.cpp', 'c13_erode.c',
                                 dict(FSV_N=n, FSV_D=d, FSV_SINGLE=single),
                                 dict(N=n, D=d, SINGLE=single, STRUCT=sid, K_SCALAR=kscalar, ROUNDS=rounds, ONLY_NODE=node, MEXP=mexp, FSV_POW_SEQ=1),
